@@ -42,6 +42,7 @@ DeclAlpha == {"a", "T", "\"s\"", "1", "=", ".", ",", ";", "(", ")", "{", "}", "[
 CoreAlpha == {"a", "1", "(", ")", "{", "}", "[", "]", ",", ";", "=>", "?", "!", ":", "for", "func"}
 Core4Alpha == {"a", "(", ")", "{", "}", "[", ",", "=>", "?", "for"}
 Byte4Alpha == {"a", "1", "0x", ".", "'", "\"", "`", "\\", "/", "*", "#", "$", "{", "!", "\n", "<"}
+BrkAlpha   == {"a", "[", "]", "{", "}", ",", "for", "in", "=>", ":"}       \* brackets / comprehensions / lambdas, up to 5 tokens
 \* C15-style fragments: pieces of lexemes glued without separator
 ByteAlpha == {"a", "1", "0x", "e", ".", "'", "\"", "`", "\\", "/", "*", "#", "$", "{", "}", "!", "?", ":", "<", ">", "-", "=", "\n", "@", "~", "_", "r", "c"}
 
